@@ -12,6 +12,8 @@
    Fact obligations (closed by computation on Extracted.Facts):
      C08_current_keeps_rootref      v_keep_rootref <- tasks_merge_ref_fn = "taskRefWithNamespace",
                                     tasks_merge_ref_fn_trims = "false", "stripRootRefs" in graph_merge_calls
+     C08_current_copies_vars        v_inplace = false <- vars_merge_dir_inplace = "false" (Vars.Merge assigns .Dir on a local copy
+                                    of <loop var>.Value and stores that copy)
      C08_current_dc_struct_ok       the part of valid_load that speaks about the variant
                                     <- task/cmd/dep_deepcopy_fields contain the fields the merge itself touches
      C08_current_deepcopy_complete  dc_complete at the field lists the monitor R_c08_attrs uses
@@ -36,6 +38,11 @@ Theorem C08_current_keeps_rootref : v_keep_rootref current_variant = true.
 Proof. vm_compute; reflexivity. Qed.
 Print Assumptions C08_current_keeps_rootref.
 
+(* Vars.Merge stamps include.Dir on a local copy of the variable (9941da6), not on the included Taskfile's own *)
+Theorem C08_current_copies_vars : v_inplace current_variant = false.
+Proof. vm_compute; reflexivity. Qed.
+Print Assumptions C08_current_copies_vars.
+
 Theorem C08_current_dc_struct_ok : dc_struct_ok current_variant = true.
 Proof. vm_compute; reflexivity. Qed.
 Print Assumptions C08_current_dc_struct_ok.
@@ -54,7 +61,7 @@ Print Assumptions C08_current_nothing_missing.
 (* valid_load at the current variant is a condition on the input alone *)
 Theorem C08_current_valid_load :
   forall g pi s, wf_graphb g = true -> valid_pi g pi -> valid_sigma s -> valid_load current_variant g pi s.
-Proof. exact (fun g pi s => Build_valid_load current_variant g pi s C08_current_dc_struct_ok). Qed.
+Proof. exact (fun g pi s => Build_valid_load current_variant g pi s C08_current_dc_struct_ok C08_current_copies_vars). Qed.
 Print Assumptions C08_current_valid_load.
 
 (* deps and task: references resolve to the own file, ':'-prefixed ones to the root Taskfile *)
